@@ -55,3 +55,21 @@ Theorem torn_create_database_refuted :
   existsb is_err (done (nth 2 (snd (run_all true [0; 0; 0; 0; 0; 0; 0; 0; 1; 1; 2; 2]%nat [setup; [CreateDb (lit "DBX")]; [CreateTable TX (Some (lit "c"))]])) (mk_sess []))) = false.
 Proof. exact torn_create_database_refuted_l. Qed.
 Print Assumptions torn_create_database_refuted.
+
+(* MERGE is three engine calls around a TEMPORARY staging table. For EVERY number of sessions, scripts (each MERGE run by the
+   session it is written for) and schedule: whenever a session is between the calls of a MERGE, its staging table holds exactly
+   the candidates its own first call computed - no interleaving makes it apply or count another session's rows *)
+Theorem merge_staging_private : forall lk sch scripts, (forall j ops, nth_error scripts j = Some ops -> script_ok j ops) ->
+  forall i s, nth_error (snd (run_sched lk sch (e0, map mk_sess scripts))) i = Some s ->
+  forall sid k src rest, todo s = Merge sid k src :: rest -> (pc s = 1 \/ pc s = 2)%nat ->
+  exists cs, last s = ARows cs /\ tlook (temps (fst (run_sched lk sch (e0, map mk_sess scripts)))) i = Some cs.
+Proof. exact merge_staging_private_l. Qed.
+Print Assumptions merge_staging_private.
+
+(* the hypothesis matters: with ONE staging table for both sessions (both MERGEs tagged 1) an interleaving at call granularity
+   puts session 2's row into session 1's target; with private tables the same schedule gives the serial result *)
+Example merge_shared_refuted :
+  klook (tbls (fst (run_all true merge_sched [merge_setup; [Connect DB SC; Merge 1 MT1 MS1]; [Connect DB SC; Merge 1 MT2 MS2]]))) MT1 = Some [2] /\
+  klook (tbls (fst (run_all true merge_sched [merge_setup; [Connect DB SC; Merge 1 MT1 MS1]; [Connect DB SC; Merge 2 MT2 MS2]]))) MT1 = Some [1].
+Proof. exact merge_shared_refuted_l. Qed.
+Print Assumptions merge_shared_refuted.
